@@ -202,6 +202,25 @@ pub fn run() -> Result<usize, String> {
     let ll = sc::l().mul_wide(&sc::l());
     let (llm1, _) = ll.sub_b(&U256::ONE.widen());
     ck!(llm1.rem(&sc::l()) == sc::l().wrapping_sub(&U256::ONE), "U512 rem");
-    let _ = U512::ZERO;
+    // fast fold reduction mod l against bitwise long division, on structured and pseudo-random inputs
+    let mut x = U512([0x243f6a8885a308d3, 0x13198a2e03707344, 0xa4093822299f31d0, 0x082efa98ec4e6c89, 0x452821e638d01377, 0xbe5466cf34e90c6c, 0xc0ac29b7c97c50dd, 0x3f84d5b5b5470917]);
+    for i in 0..20000u64 {
+        // xorshift-style scrambling of all limbs; every 7th input is made structured
+        for j in 0..8 {
+            let a = x.0[j];
+            let b = x.0[(j + 3) % 8];
+            x.0[j] = (a ^ (a << 13) ^ (b >> 7)).wrapping_mul(0x9e3779b97f4a7c15).wrapping_add(i);
+        }
+        let mut y = x;
+        match i % 7 {
+            0 => y.0[4..].iter_mut().for_each(|w| *w = u64::MAX),
+            1 => y.0[..4].iter_mut().for_each(|w| *w = 0),
+            2 => y = sc::l().mul_wide(&y.lo()),
+            3 => y = sc::l().mul_wide(&y.lo()).sub_b(&U256::ONE.widen()).0,
+            _ => {}
+        }
+        ck!(Sc::from_u512(&y).0 == y.rem(&sc::l()), "fold reduction vs long division at i={}", i);
+    }
+    ck!(Sc::from_u512(&U512([u64::MAX; 8])).0 == U512([u64::MAX; 8]).rem(&sc::l()), "fold reduction of 2^512-1");
     Ok(n)
 }
